@@ -611,10 +611,14 @@ vbi_deferred_trigger(vbi_decoder *vbi)
 			tp = &t->next;
 }
 
+/* Triggers waiting for their fire time, more are dropped. */
+#define MAX_DEFERRED_TRIGGERS 64
+
 static void
 add_trigger(vbi_decoder *vbi, vbi_trigger *a)
 {
 	vbi_trigger *t;
+	unsigned int n_deferred;
 
 	if (a->_delete) {
 		vbi_trigger **tp;
@@ -630,10 +634,15 @@ add_trigger(vbi_decoder *vbi, vbi_trigger *a)
 		return;
 	}
 
-	for (t = vbi->triggers; t; t = t->next)
+	n_deferred = 0;
+
+	for (t = vbi->triggers; t; t = t->next) {
 		if (strcmp((char *) a->link.url, (char *) t->link.url) == 0
 		    && fabs(a->fire - t->fire) < 0.1)
 			return;
+
+		++n_deferred;
+	}
 
 	if (a->fire <= vbi->time) {
 		vbi_event ev;
@@ -644,6 +653,12 @@ add_trigger(vbi_decoder *vbi, vbi_trigger *a)
 
 		return;
 	}
+
+	/* Each transmission of a trigger with a countdown has a fire
+	   time of its own.  The list only shrinks when triggers fire,
+	   which the transmitter can put off for years. */
+	if (n_deferred >= MAX_DEFERRED_TRIGGERS)
+		return;
 
 	if (!(t = malloc(sizeof(*t))))
 		return;
